@@ -105,10 +105,33 @@ Proof. intro H. unfold scan_with_cache. rewrite dc_never_hits; [reflexivity | re
 
 (* ---- resume ---- *)
 Theorem plan_resume_nil src : plan_resume [] src = src.
-Proof. unfold plan_resume. induction src as [|e src IH]; [reflexivity|]. cbn [filter existsb negb]. f_equal. exact IH. Qed.
-
-(* a state file that lists a path as completed hides it from the planner, whatever happened to the source since *)
-Lemma plan_resume_hides p e src : se_path e = p -> ~ In e (plan_resume [p] (e :: src)).
 Proof.
-  intros Hp Hin. unfold plan_resume in Hin. apply filter_In in Hin. destruct Hin as [_ H]. cbn in H. rewrite Hp, peqb_refl in H. discriminate.
+  unfold plan_resume. induction src as [|e src IH]; [reflexivity|]. cbn [filter]. unfold still_completed at 1. cbn [existsb].
+  rewrite andb_false_r. cbn [orb negb]. f_equal. exact IH.
+Qed.
+
+(* a FILE that the resume state keeps out of the plan is one whose recorded version is the source's current version *)
+Theorem plan_resume_skips_only_unchanged comp src e :
+  In e src -> se_is_dir e = false -> ~ In e (plan_resume comp src) ->
+  exists r, In r comp /\ cp_path r = se_path e /\ cp_size r = se_size e /\ cp_sum r = se_content e.
+Proof.
+  intros He Hd Hn. unfold plan_resume in Hn.
+  destruct (still_completed comp e) eqn:E.
+  - unfold still_completed in E. rewrite Hd in E. cbn [andb orb] in E. apply existsb_exists in E. destruct E as (r & Hr & Er).
+    apply andb_prop in Er. destruct Er as [Er E3]. apply andb_prop in Er. destruct Er as [E1 E2].
+    exists r. split; [exact Hr|]. apply peqb_eq in E1. apply N.eqb_eq in E2, E3. auto.
+  - exfalso. apply Hn. apply filter_In. split; [exact He | rewrite E; reflexivity].
+Qed.
+
+(* an edited file (another size or another content) is planned again, whatever the state file says *)
+Theorem plan_resume_replans_edited comp src e :
+  In e src -> se_is_dir e = false ->
+  (forall r, In r comp -> cp_path r = se_path e -> cp_size r <> se_size e \/ cp_sum r <> se_content e) ->
+  In e (plan_resume comp src).
+Proof.
+  intros He Hd Hall. unfold plan_resume. apply filter_In. split; [exact He|]. apply negb_true_iff.
+  destruct (still_completed comp e) eqn:E; [|reflexivity]. exfalso.
+  unfold still_completed in E. rewrite Hd in E. cbn [andb orb] in E. apply existsb_exists in E. destruct E as (r & Hr & Er).
+  apply andb_prop in Er. destruct Er as [Er E3]. apply andb_prop in Er. destruct Er as [E1 E2].
+  apply peqb_eq in E1. apply N.eqb_eq in E2, E3. destruct (Hall r Hr E1) as [X|X]; contradiction.
 Qed.
